@@ -892,6 +892,8 @@ def str_method(eng, s, name):
             if len(s.toks) == 1 and s.toks[0][0] == 'ff':
                 t = s.toks[0]
                 return AStr([('ff', t[1], t[2], t[3] + (name,))])
+            if all(t[0] in ('fld', 'lit') for t in s.toks):
+                return s          # option strings are modelled without surrounding blanks
             return AStr([('mod', name, s)])
         return Builtin('str.' + name, f)
     if name in ('startswith', 'endswith'):
@@ -919,6 +921,8 @@ def str_method(eng, s, name):
         def f(e, a, k):
             return e.str_split(s, a, k)
         return Builtin('str.split', f)
+    if name == 'lit_value':
+        return s
     raise EngineError('str.%s' % name)
 
 
